@@ -282,7 +282,7 @@ fn judge_cfg(cfg: &BuildCfg, dir: &std::path::Path, key: Option<&Key>, rep: &Rep
 }
 
 fn run(ctx: &Ctx, rep: &Report) {
-    let n: u64 = ctx.tier.pick(400, 40_000);
+    let n: u64 = ctx.tier.pick(600, 40_000);
     let keys = match load_keys(&ctx.repo_dir) {
         Ok(k) => k,
         Err(e) => {
